@@ -1,5 +1,5 @@
 #!/usr/bin/env python3
-"""tools/matrix.py [--only <substring>]  - runs every kept change against the check(s) of the property it breaks and writes seeded/MATRIX.md.
+"""tools/matrix.py [--only <substring>] [--update <substring>]  - runs every kept change against the check(s) of the property it breaks and writes seeded/MATRIX.md.
 
 Changes: seeded/<id>/patch.diff (independent sub-agents), selftest/reverts/revert_<hash>.diff and selftest/manual/*.diff (re-introductions of repaired defects).
 Each patch is applied to /repo (which must be clean), the check is run with --no-evidence, and the patch is undone straight afterwards.
@@ -13,6 +13,9 @@ import sys
 
 VERIF = os.path.dirname(os.path.dirname(os.path.abspath(__file__)))
 only = sys.argv[sys.argv.index("--only") + 1] if "--only" in sys.argv else None
+update = sys.argv[sys.argv.index("--update") + 1] if "--update" in sys.argv else None  # re-run the matching changes and merge their rows into the existing MATRIX.md
+if update:
+    only = update
 EXTRA = {"C01-m2": ["C03"], "C02-m1": ["C03"], "C04-m2": ["C03"], "C16-m2": ["C15"], "C19-m2": ["C13"], "C11-m2": []}
 
 
@@ -72,7 +75,19 @@ for sid, patch, pids, what in jobs:
             meta = json.load(open(mp))
             meta["detected_by"] = f"./check {pid} --tier quick: {v}" + (f" ({how}; {n})" if how else "")
             json.dump(meta, open(mp, "w"), indent=1)
-if not only:
+if update:
+    mp_ = os.path.join(VERIF, "seeded", "MATRIX.md")
+    old_rows = []
+    for line in open(mp_):
+        if line.startswith("| ") and not line.startswith("| change |") and not line.startswith("|---"):
+            cells = [c.strip().replace("\\|", "|") for c in re.split(r"(?<!\\)\|", line.strip().strip("|"))]
+            if len(cells) == 6:
+                old_rows.append(tuple(cells))
+    new_keys = {(r[0], r[1]) for r in rows}
+    merged = [r for r in old_rows if (r[0], r[1]) not in new_keys and any(r[0] == j[0] for j in jobs)] + rows
+    order = {j[0]: i for i, j in enumerate(jobs)}
+    rows = sorted(merged, key=lambda r: (order.get(r[0], 10**6), r[1]))
+if not only or update:
     with open(os.path.join(VERIF, "seeded", "MATRIX.md"), "w") as f:
         f.write("# Which check catches which change\n\nGenerated by `tools/matrix.py` (quick tier, each patch applied to /repo, checked, undone).\n"
                 "`deductive obligation` = a named proof obligation fails (the first one is shown); `bounded native sweep` = only / also the bounded stand-in on the real code reports it.\n\n"
